@@ -19,7 +19,7 @@ func init() {
 
 	addRun("C08", "FB: hostile DecodeParms (type confusion, huge Columns/Rows/Colors), dimension bombs, truncated and mutated Flate+predictor and CCITTFax bodies, /Filter chains up to and beyond 8 entries through GetFilters/DecodeStream: data or a malformed error, no panic, output bounded by rows x row size. Non-trivial: the decoder was built.", runFBHostile)
 	addRun("C08", "FB: CCITTFax output bound: every combination of /Rows {absent, 3, cap+1, 2^20, 2^40, negative} x /EndOfBlock {absent, true, false} x K {<0, 0, 1} x EndOfLine x /Columns {1, 8, 1728, 65536, 2^20} with an all-white / all-black body that encodes more rows than the geometric cap, drained with a hard read budget: decoded bytes <= cap rows x ceil(Columns/8). Non-trivial: every case.", runFBBombs)
-	addRun("C08", "FB: DCTDecode on synthetic JPEGs (SOI, APP14, DQT, SOF0/1/2 with 1, 3 and 4 components and all sampling factor combinations H,V in {1,2,4}, DHT with one-code tables, DRI, SOS, a few entropy bytes, AC scans), truncated at every marker boundary, hostile dimensions/precision/selectors/counts, progressive files with 1..2500 first-pass and refinement scans of EOB-run tokens at up to 2048x2048 (rejected, or decoded with scans x blocks <= 4 x (input+output) and CPU time <= 3 s + 200 ns x (input+output)), and JBIG2Decode on hostile segment headers and on pages from the library's encoder (text region over symbol dictionaries, generic, halftone over pattern dictionaries) with mutated counts, flags, referred-to lists, geometry and starved coded data; run in child processes (a helper-goroutine panic would kill the harness): data or malformed error, no crash, no hang (10 s watchdog, attributed to the running case), output within width x height x components, no goroutine left after Close (also after an early Close). Non-trivial: data was produced.", runFBChild)
+	addRun("C08", "FB: DCTDecode on synthetic JPEGs (SOI, APP14, DQT, SOF0/1/2 with 1, 3 and 4 components and all sampling factor combinations H,V in {1,2,4}, DHT with one-code tables, DRI, SOS, a few entropy bytes, AC scans), truncated at every marker boundary, hostile dimensions/precision/selectors/counts, progressive files with 1..2500 first-pass and refinement scans of EOB-run tokens at up to 2048x2048 (rejected, or decoded with scans x blocks <= 4 x (input+output) and CPU time <= 3 s + 200 ns x (input+output)), and JBIG2Decode on hostile segment headers and on pages from the library's encoder (text region over symbol dictionaries, generic, halftone over pattern dictionaries) with mutated counts, flags, referred-to lists, geometry and starved coded data; JBIG2 memory accounting on structured streams (symbol dictionary with 256 KiB..1 MiB symbols, 2..16 rounds of intermediate generic region + further dictionary + Huffman or arithmetic text region with SBREFINE=1 and mixed RI bits): retained heap (HeapAlloc after forced GC, sampled and at every pool event) <= budget + 2 MiB and <= charged bytes + 2 MiB, pool ledger consistent (every freeBitmap names a live bitmap that is unreachable three events later); run in child processes (a helper-goroutine panic would kill the harness): data or malformed error, no crash, no hang (10 s watchdog, attributed to the running case), output within width x height x components, no goroutine left after Close (also after an early Close). Non-trivial: data was produced.", runFBChild)
 	addReplay("C08", "fb-hostile-child", replayChild)
 	addReplay("C08", "fb-bomb", replayBomb)
 	addReplay("C08", "fb-hostile", replayHostile)
